@@ -13,10 +13,11 @@ Fault kinds (see DESIGN.md 2.4):
   AFTER    perform the operation, then raise OSError(EIO)
   TORN     a write stream fails after half of this chunk (write/close ops)
   ENOSPC   raise OSError(ENOSPC), nothing happened (write / makedirs)
-  VIS      the entry created by this op is invisible to metadata ops until t+d
-  DEL      the entry removed by this op is still visible to metadata ops until t+d
+  VIS      the entry created by this op is missing from listings (ls/find/glob) until t+d
+  DEL      the entry removed by this op is still listed (ls/find/glob) until t+d
   SLOW     latency x factor for this op
   CRASH    SimCrash at this op; storage freezes
+  FALSE    exists/isdir/isfile answer False although the entry is there
 """
 from __future__ import annotations
 
@@ -48,6 +49,9 @@ APPLICABLE = {
     "DEL": REMOVE_OPS,
     "SLOW": None,
     "CRASH": None,
+    # the predicate answers False (what the fsspec base class makes of an error in
+    # info()); NOT part of the default fault set: a wrong answer is not a failure
+    "FALSE": {"exists", "isdir", "isfile"},
 }
 
 
@@ -220,6 +224,9 @@ class SimFS(AbstractFileSystem):
         if kind == "ENOSPC":
             st.fire("ENOSPC")
             raise OSError(errno.ENOSPC, f"injected ENOSPC at op {k} {op} {rel}")
+        if kind == "FALSE":
+            st.fire("FALSE")
+            return False
         if kind == "ENOENT":
             st.fire("ENOENT")
             raise FileNotFoundError(errno.ENOENT, f"injected ENOENT at op {k} {op} {rel}")
@@ -264,13 +271,9 @@ class SimFS(AbstractFileSystem):
 
     # -------------------------------------------------------- metadata ops
     def _info_view(self, p):
-        st = self.store
-        if st.is_hidden(p):
-            raise FileNotFoundError(errno.ENOENT, "not yet visible", p)
-        g = st.ghost_info(p)
-        if g is not None:
-            return dict(g)
-        return st.local.info(p)
+        # point lookups (info/exists/isdir/isfile) see the real state; only *listings*
+        # can be stale (VIS / DEL), which is the staleness the property names
+        return self.store.local.info(p)
 
     def info(self, path, **kwargs):
         p = self._strip_protocol(path)
@@ -309,8 +312,6 @@ class SimFS(AbstractFileSystem):
 
     def _ls_view(self, p, detail):
         st = self.store
-        if st.is_hidden(p):
-            raise FileNotFoundError(errno.ENOENT, "not yet visible", p)
         try:
             infos = st.local.ls(p, detail=True)
         except FileNotFoundError:
@@ -533,6 +534,8 @@ class SimWriteFile(io.RawIOBase):
             self._buf = None
             self._f = open(path, "ab" if append else "wb")
         self._closed_once = False
+        if append and os.path.exists(path):
+            self._pos = os.path.getsize(path)
 
     def writable(self):
         return True
@@ -548,6 +551,10 @@ class SimWriteFile(io.RawIOBase):
             self._buf.write(b)
 
     def write(self, b):
+        if self._closed_once:
+            # e.g. a pyarrow writer that outlived a failed attempt and is flushed by the
+            # garbage collector: not a storage operation
+            raise ValueError("I/O operation on closed file")
         b = bytes(b)
         st = self.st
         fs = self.fs
